@@ -30,7 +30,8 @@ LAWS = ["Spring:force", "Spring:compliance", "KelvinVoigt:force", "KelvinVoigt:c
 TPI_PAIRS = [("fixed_frame", "rigid_body"), ("moving_frame", "point_mass"), ("rotating_frame", "rigid_body"),
              ("point_mass", "point_mass"), ("rigid_body", "rigid_body"), ("rigid_body", "point_mass"),
              ("point_mass", "fixed_frame"), ("rigid_body", "rotating_frame")]
-REV_PAIRS = [("fixed_frame", "rigid_body"), ("rotating_frame", "rigid_body"), ("rigid_body", "rigid_body"), ("rigid_body", "moving_frame")]
+REV_PAIRS = [("fixed_frame", "rigid_body"), ("rotating_frame", "rigid_body"), ("rigid_body", "rigid_body"), ("rigid_body", "moving_frame"),
+             ("rigid_body", "rotating_frame")]
 
 
 def make_law(rng, law, interaction, l_ref="given"):
